@@ -2,7 +2,9 @@ package props
 
 import (
 	"fmt"
+	"go/constant"
 	"go/token"
+	"go/types"
 	"regexp"
 	"strings"
 
@@ -752,6 +754,115 @@ func runC12(c *Ctx) {
 		})
 	}
 	// never ACK what cannot be honoured: every entry into the acknowledgement section has an offer or a lease
+	// a REQUEST that names a server is a selecting REQUEST, whatever else it carries: the operation code differs from
+	// `selecting` only on paths where the server identifier is absent (zero). Otherwise a request for another server
+	// reaches an arm that never looks at the server identifier and is acknowledged.
+	r.Rule("classify", "the operation is selecting whenever the request carries a server identifier", 3)
+	if hr := c.P.Method(dhcpRel, "Handler", "handleRequest"); hr != nil {
+		selVal := int64(-1)
+		if pk := c.P.Pkg(dhcpRel); pk != nil {
+			if k, ok := pk.Pkg.Scope().Lookup("selecting").(*types.Const); ok {
+				if v, exact := constant.Int64Val(k.Val()); exact {
+					selVal = v
+				}
+			}
+		}
+		// the server identifier: AddrFromSlice(options[54]) and the φ it flows into
+		srv := map[ssa.Value]bool{}
+		core.EachInstr(hr, func(i ssa.Instruction) {
+			lk, ok := i.(*ssa.Lookup)
+			if !ok {
+				return
+			}
+			if k, isC := lk.Index.(*ssa.Const); !isC || k.Value == nil || k.Int64() != 54 {
+				return
+			}
+			var fwd func(v ssa.Value, d int)
+			fwd = func(v ssa.Value, d int) {
+				if d > 8 || srv[v] && d > 0 {
+					return
+				}
+				if refs := v.Referrers(); refs != nil {
+					for _, rf := range *refs {
+						switch t := rf.(type) {
+						case *ssa.Extract:
+							if t.Index == 0 {
+								fwd(t, d+1)
+							}
+						case *ssa.Call:
+							if cal := t.Common().StaticCallee(); cal != nil && core.FuncName(cal) == "net/netip.AddrFromSlice" {
+								fwd(t, d+1)
+							}
+						case *ssa.Phi:
+							if !srv[t] {
+								srv[t] = true
+								fwd(t, d+1)
+							}
+						}
+					}
+				}
+				if _, isEx := v.(*ssa.Extract); isEx && d >= 2 {
+					srv[v] = true
+				}
+			}
+			fwd(lk, 0)
+		})
+		srvZero := func(gs []Guard) bool {
+			for _, g := range gs {
+				bo, ok := g.Cond.(*ssa.BinOp)
+				if !ok || !g.Pol || bo.Op != token.EQL && bo.Op != token.NEQ {
+					continue
+				}
+				// guardsOf folds != into == with the polarity flipped: Pol true means "equal"
+				x, y := bo.X, bo.Y
+				if srv[y] {
+					x, y = y, x
+				}
+				if srv[x] && strings.HasSuffix(norm(y), "IPv4zero") {
+					return true
+				}
+			}
+			return false
+		}
+		var op *ssa.Phi
+		core.EachInstr(hr, func(i ssa.Instruction) {
+			bo, ok := i.(*ssa.BinOp)
+			if !ok || bo.Op != token.EQL {
+				return
+			}
+			ph, isPhi := bo.X.(*ssa.Phi)
+			if _, isC := bo.Y.(*ssa.Const); !isC || !isPhi {
+				return
+			}
+			for _, e := range ph.Edges {
+				if _, isC := e.(*ssa.Const); !isC {
+					return
+				}
+			}
+			if b, isB := ph.Type().Underlying().(*types.Basic); isB && b.Info()&types.IsInteger != 0 {
+				op = ph
+			}
+		})
+		if op == nil || selVal < 0 || len(srv) == 0 {
+			r.Add(core.Obligation{Rule: "classify", Key: "classify operation code found", Func: core.FuncName(hr), Status: core.Undecided, Detail: fmt.Sprintf("operation φ found: %v, constant `selecting` found: %v, server identifier values: %d", op != nil, selVal >= 0, len(srv))})
+		} else {
+			kgc := core.NewKeyGen()
+			for k, e := range op.Edges {
+				cv := e.(*ssa.Const).Int64()
+				if cv == selVal {
+					continue
+				}
+				pred := op.Block().Preds[k]
+				gs := guardsOf(pred.Instrs[len(pred.Instrs)-1])
+				st := core.Proved
+				if !srvZero(gs) {
+					st = core.Violated
+				}
+				r.Add(core.Obligation{Rule: "classify", Key: strings.TrimSuffix(kgc.Key(fmt.Sprintf("classify operation %d only without a server identifier", cv)), "#0"), Func: core.FuncName(hr), Pos: c.P.Pos(core.PosOf(pred.Instrs[len(pred.Instrs)-1])), Status: st,
+					Basis: "the arm runs under server identifier == 0", Detail: fmt.Sprintf("handleRequest classifies a REQUEST as operation %d on a path where the server identifier may be present (guards: %s): a request naming another server reaches an arm that does not compare the server identifier and can be acknowledged", cv, guardTexts(gs))})
+			}
+		}
+	}
 	r.Rule("ack", "the acknowledgement section is entered only with an outstanding offer or lease", 9)
 	if hr := c.P.Method(dhcpRel, "Handler", "handleRequest"); hr != nil {
 		join := ackJoin(hr)
